@@ -39,6 +39,8 @@ try:
     c = sh(f"./check {prop}", cwd=R)
 finally:
     sh("git -C /repo checkout -- .")
+    # the evidence file written by the seeded run must not be kept: restore the committed one
+    sh(f"git -C {R} checkout -- evidence/{prop}.json")
 lines = [l for l in c.stdout.splitlines() if l.startswith(("VIOLATION", "ENGINE-ERROR", "UNDECIDED", "obligation failed", prop + ":"))]
 print(f"check exit={c.returncode}")
 for l in lines[:8]:
